@@ -288,10 +288,12 @@ fn sim_panic(p: &Box<dyn std::any::Any + Send>) -> bool {
 pub fn map_roundtrip<K: SimK, V: SimV, const C1: usize, const C2: usize>(m: &Map<K, V, C1>, cx: &mut Cx<K, V>, cfg: &SerdeCfg, pre: &Snap) {
     let aw = cx.cfg.alloc_window && cfg.bincode;
     let diag = cfg.truncate.is_some() || cfg.flip_bit.is_some() || cfg.ser_fail_at.is_some() || cfg.de_fail_at.is_some() || cfg.dup_at.is_some() || (!cfg.bincode && cfg.hint >= 2);
+    // (an unusual or under-reporting size hint is not a transport fault here: overflow must be loud whatever the hint says)
+    let no_transport_fault = cfg.truncate.is_none() && cfg.flip_bit.is_none() && cfg.ser_fail_at.is_none() && cfg.de_fail_at.is_none() && cfg.dup_at.is_none();
     let len = pre.len();
     if len > C2 {
         // more entries than the target can hold: decoding may panic or report an error, never succeed
-        if !diag && !cx.lying && !K::ANON && !cfg.bincode {
+        if no_transport_fault && !cx.lying && !K::ANON && !cfg.bincode {
             cx.probe("serde_target_too_small");
             let mut ser = TokSer { log: Vec::new(), fail_at: None };
             if m.serialize(&mut ser).is_ok() {
@@ -445,9 +447,11 @@ pub fn map_roundtrip<K: SimK, V: SimV, const C1: usize, const C2: usize>(m: &Map
 pub fn set_roundtrip<K: SimK, V: SimV, const C1: usize, const C2: usize>(s: &Set<K, C1>, cx: &mut Cx<K, V>, cfg: &SerdeCfg, pre: &Snap) {
     let aw = cx.cfg.alloc_window && cfg.bincode;
     let diag = cfg.truncate.is_some() || cfg.flip_bit.is_some() || cfg.ser_fail_at.is_some() || cfg.de_fail_at.is_some() || cfg.dup_at.is_some() || (!cfg.bincode && cfg.hint >= 2);
+    // (an unusual or under-reporting size hint is not a transport fault here: overflow must be loud whatever the hint says)
+    let no_transport_fault = cfg.truncate.is_none() && cfg.flip_bit.is_none() && cfg.ser_fail_at.is_none() && cfg.de_fail_at.is_none() && cfg.dup_at.is_none();
     let len = pre.len();
     if len > C2 {
-        if !diag && !cx.lying && !K::ANON && !cfg.bincode {
+        if no_transport_fault && !cx.lying && !K::ANON && !cfg.bincode {
             cx.probe("serde_target_too_small");
             let mut ser = TokSer { log: Vec::new(), fail_at: None };
             if s.serialize(&mut ser).is_ok() {
